@@ -4,8 +4,8 @@
    WML), Lib/HtmlEsc.v.  Proofs: Proofs/TokFacts.v (template theorem),
    Proofs/C13Facts.v. *)
 From Coq Require Import String ZArith.
-From PG Require Import Lib.Str Lib.Crlf Lib.HtmlEsc Model.Entry Model.Copy Model.Wml Model.RenderUrl Model.ClientView
-     Proofs.TokFacts Proofs.C13Facts.
+From PG Require Import Lib.Str Lib.Crlf Lib.CrlfFacts Lib.HtmlEsc Model.Entry Model.Copy Model.Wml Model.GopherPlus Model.RenderUrl
+     Model.ClientView Proofs.TokFacts Proofs.C15Facts Proofs.C13Facts.
 Local Open Scope N_scope.
 
 (* html.escape output contains no angle bracket and no quotation mark of either kind, and every
@@ -143,15 +143,22 @@ Theorem C13_headers_slots : forall adjust lastmod e1 e2,
 Proof. exact C13Facts.headers_ok_slots. Qed.
 Print Assumptions C13_headers_slots.
 
-(* Gopher+: every line of a +BLOCK body begins with a space and contains no line break that
-   splitlines recognises; a reader of CRLF lines gets exactly those lines and none is a header *)
-Theorem C13_gplus : forall value,
-  Forall (fun l => exists r, l = 32 :: r /\ forallb (fun c => negb (is_linebreak c)) r = true)
-         (gplus_block_lines value) /\
-  split_crlf (gplus_body value) = (gplus_block_lines value, []) /\
-  Forall (fun l => is_block_header l = false) (gplus_block_lines value).
-Proof. exact (fun v => conj (C13Facts.gplus_lines_safe v) (C13Facts.gplus_body_never_header v)). Qed.
+(* Gopher+ (block builder: Model/GopherPlus.v): every line of a +BLOCK body begins with a space,
+   contains no line break that splitlines recognises, and is not read as a block header ... *)
+Theorem C13_gplus : forall keep name v l,
+  In l (tl (GopherPlus.ea_block_lines keep name v)) ->
+  exists x, l = GopherPlus.SP :: x /\ no_break x /\ no_lf l /\ GopherPlus.parse_header l = None.
+Proof. exact C15Facts.gplus_lines_never_headers. Qed.
 Print Assumptions C13_gplus.
+
+(* ... and a reader of CRLF lines gets exactly the header line and those body lines *)
+Theorem C13_gplus_reads : forall keep name v,
+  no_lf name ->
+  split_crlf (GopherPlus.ea_block keep name v) = (GopherPlus.ea_block_lines keep name v, []) /\
+  Forall (fun l => exists x, l = GopherPlus.SP :: x /\ no_break x /\ GopherPlus.parse_header l = None)
+         (tl (GopherPlus.ea_block_lines keep name v)).
+Proof. exact C13Facts.gplus_block_reads. Qed.
+Print Assumptions C13_gplus_reads.
 
 (* non-vacuity: a hostile name, URL and subtype in a row; the shipped kind of page topper is closed;
    a block value full of fake headers *)
@@ -167,5 +174,6 @@ Example C13_example :
                            EEnd (lit "td"); EEnd (lit "tr")]) /\
   icons_ok [(lit "h", lit "text.gif")] = true /\
   topper_closed (lit "Welcome! <A HREF=""gopher://gopher.example:70/1"">try clicking here</A><HR>") /\
-  gplus_block_lines (lit "A" ++ [10] ++ lit "+ADMIN:" ++ [11] ++ lit "+X:") = [lit " A"; lit " +ADMIN:"; lit " +X:"].
+  GopherPlus.ea_block_lines true (lit "ABSTRACT") (lit "A" ++ [10] ++ lit "+ADMIN:" ++ [11] ++ lit "+X:" ++ [10])
+    = [lit "+ABSTRACT:"; lit " A"; lit " +ADMIN:"; lit " +X:"; lit " "].
 Proof. vm_compute. repeat split; try reflexivity. eexists; split; reflexivity. Qed.
